@@ -2,9 +2,12 @@
    Proved: under q the compiler never parses: the program is the literal atom followed by the end
    marker, searched by prefix, with no groups and no back-references; flags m, s and x play no part
    in it; and replace_all with such a program inserts the replacement verbatim between the pieces
-   (C04_replace_joins_pieces_partial is stated for literal = true).  Partial: is_match <-> "the
-   pattern occurs in the input" needs the engine lemma for Sequence[Atom, EndProgram]. *)
-From RX Require Import Base.Prelude Model.Op Model.Matcher Model.Compiler Proofs.LeafFacts.
+   (C04_replace_joins_pieces_partial is stated for literal = true); and ReMatcher::matches on that
+   program - through the minimum-length cut-off and the prefix scan - is substring search: it
+   reports the leftmost occurrence of the literal (compared case-blind under i) or, when there is
+   none, false; it never panics or runs out of fuel.  Partial: tokenize / analyze totality for
+   literals rests on C04/C06's scan theorems plus the correspondence check. *)
+From RX Require Import Base.Prelude Model.Op Model.Engine Model.Matcher Model.Compiler Model.Api Proofs.LeafFacts Proofs.LiteralFacts.
 
 Theorem C13_literal_program :
   forall fl p, f_literal fl = true ->
@@ -21,5 +24,17 @@ Proof.
   rewrite Hc, Hm. reflexivity.
 Qed.
 
+Theorem C13_literal_is_match :
+  forall p ci multi input i s_in, (N.of_nat (length p) <= umax)%N ->
+    i <= length input -> length (sb s_in) = length (eb s_in) ->
+    match matches (mk_program p (OSeq [OAtom p; OEnd]) 1 ci multi true false) input i s_in with
+    | MTrue s' => exists k, i <= k /\ (forall m, i <= m < k -> occurs_at p ci input m = false)
+                            /\ occurs_at p ci input k = true /\ get_pend s' 0 = Some (k + length p)
+    | MFalse _ => forall m, i <= m -> occurs_at p ci input m = false
+    | MOut | MPanic _ => False
+    end.
+Proof. intros p ci multi input i s_in H. exact (literal_matches_spec p ci multi input H i s_in). Qed.
+
 Print Assumptions C13_literal_program.
 Print Assumptions C13_other_flags_ignored.
+Print Assumptions C13_literal_is_match.
